@@ -146,6 +146,9 @@ def run(chk):
                                   (1, "pp,pp", "ab,cd", True),
                                   (2, "pp,pp", "ab,cd", True)],
                   [(2, 3), (3, 3)], seeds, gs)
+    # the pure helper functions behind this property (spec/Helpers.tla)
+    from .helpers import run_helpers
+    run_helpers(chk, ('bord',))
     return chk.finish(
         rule="each secular-matrix block request (variant, order, block, "
              "indices, subtract_gs) is one event; TLC evaluates the derived "
